@@ -5,7 +5,9 @@
    Data model:  int -> Z        bool -> bool        str -> string        tuple / list -> list
                 set -> list (the list order is the iteration order; membership is all a set operation may look at)
                 dict literal -> association list        exception -> Raise e        loop exit -> flow
-   Whatever is not listed here has no translation: the translator fails closed. *)
+   Whatever is not listed here has no translation: the translator fails closed.
+   Round 2 (below the line "round 2"): dicts as VALUES (association lists without duplicate keys), defaultdict(set), range, max,
+   OrderedDict.move_to_end, del, dict.update, set(<list>), sorted / list.sort on str. *)
 From Coq Require Import List Bool ZArith String Ascii.
 Import ListNotations.
 Open Scope Z_scope.
@@ -91,3 +93,97 @@ Fixpoint py_split1 (c : ascii) (s : string) : list string :=
          | [] => [String a EmptyString]
          end
   end.
+
+(* ---------- round 2: dicts as values, defaultdict(set), list.append ---------- *)
+(* A dict VALUE is an association list in insertion order WITHOUT duplicate keys: every operation below keeps that shape
+   (d[k] = v on an existing key keeps the position and the key object).  A lookup returns the first entry of the key;
+   py_dict_get above (last duplicate wins) is the meaning of a dict LITERAL, where a key may be written twice. *)
+Definition py_dict_keys {K V : Type} (d : list (K * V)) : list K := map fst d.
+Definition py_dict_values {K V : Type} (d : list (K * V)) : list V := map snd d.
+Definition py_dict_items {K V : Type} (d : list (K * V)) : list (K * V) := d.
+
+(* d[k] = v *)
+Fixpoint py_dict_set {K V : Type} (eqb : K -> K -> bool) (d : list (K * V)) (k : K) (v : V) : list (K * V) :=
+  match d with
+  | [] => [(k, v)]
+  | (k', v') :: t => if eqb k k' then (k', v) :: t else (k', v') :: py_dict_set eqb t k v
+  end.
+
+(* d[k] : KeyError when the key is missing *)
+Fixpoint py_dict_getitem {K V : Type} (eqb : K -> K -> bool) (d : list (K * V)) (k : K) : res V :=
+  match d with
+  | [] => Raise KeyError
+  | (k', v) :: t => if eqb k k' then Ok v else py_dict_getitem eqb t k
+  end.
+
+(* k in d *)
+Definition py_dict_mem {K V : Type} (eqb : K -> K -> bool) (k : K) (d : list (K * V)) : bool :=
+  existsb (fun kv => eqb k (fst kv)) d.
+
+(* d[k].add(x) on a defaultdict(set): a missing key is created with the empty set first *)
+Fixpoint py_dd_add {K V : Type} (eqk : K -> K -> bool) (eqv : V -> V -> bool) (d : list (K * list V)) (k : K) (x : V)
+  : list (K * list V) :=
+  match d with
+  | [] => [(k, [x])]
+  | (k', s) :: t => if eqk k k' then (k', py_union eqv s [x]) :: t else (k', s) :: py_dd_add eqk eqv t k x
+  end.
+
+(* d[k].add(x) on a plain dict: KeyError when the key is missing *)
+Fixpoint py_dict_setadd {K V : Type} (eqk : K -> K -> bool) (eqv : V -> V -> bool) (d : list (K * list V)) (k : K) (x : V)
+  : res (list (K * list V)) :=
+  match d with
+  | [] => Raise KeyError
+  | (k', s) :: t =>
+    if eqk k k' then Ok ((k', py_union eqv s [x]) :: t)
+    else match py_dict_setadd eqk eqv t k x with Ok t' => Ok ((k', s) :: t') | Raise e => Raise e end
+  end.
+
+(* l.append(x) *)
+Definition py_append {A : Type} (l : list A) (x : A) : list A := l ++ [x].
+
+(* range(a, b) *)
+Definition py_range (a b : Z) : list Z := map (fun i => a + Z.of_nat i) (seq 0 (Z.to_nat (b - a))).
+
+(* max(<iterable of int>): ValueError when it is empty *)
+Definition py_max (l : list Z) : res Z :=
+  match l with [] => Raise ValueError | x :: t => Ok (fold_left Z.max t x) end.
+
+(* OrderedDict.move_to_end(k): KeyError when the key is missing *)
+Definition py_dict_move_to_end {K V : Type} (eqb : K -> K -> bool) (d : list (K * V)) (k : K) : res (list (K * V)) :=
+  match find (fun kv => eqb k (fst kv)) d with
+  | None => Raise KeyError
+  | Some kv => Ok (filter (fun kv' => negb (eqb k (fst kv'))) d ++ [kv])
+  end.
+
+(* d.get(k, default) on a dict VALUE (no duplicate keys): the first entry of the key *)
+Fixpoint py_dict_getd {K V : Type} (eqb : K -> K -> bool) (d : list (K * V)) (k : K) (default : V) : V :=
+  match d with
+  | [] => default
+  | (k', v) :: t => if eqb k k' then v else py_dict_getd eqb t k default
+  end.
+
+(* del d[k]: KeyError when the key is missing *)
+Fixpoint py_dict_del {K V : Type} (eqb : K -> K -> bool) (d : list (K * V)) (k : K) : res (list (K * V)) :=
+  match d with
+  | [] => Raise KeyError
+  | (k', v) :: t =>
+    if eqb k k' then Ok t
+    else match py_dict_del eqb t k with Ok t' => Ok ((k', v) :: t') | Raise e => Raise e end
+  end.
+
+(* d.update(o) for a dict o: its entries are assigned in its order *)
+Definition py_dict_update {K V : Type} (eqb : K -> K -> bool) (d o : list (K * V)) : list (K * V) :=
+  fold_left (fun acc kv => py_dict_set eqb acc (fst kv) (snd kv)) o d.
+
+(* {e for x in s} / set(<list>): the elements, each once, in the order of first occurrence *)
+Definition py_set_of_list {A : Type} (eqb : A -> A -> bool) (l : list A) : list A :=
+  fold_left (fun acc x => py_union eqb acc [x]) l [].
+
+(* sorted(<str collection>) / list.sort() on str: insertion sort with <= on str (code point order on ASCII); the result of
+   sorting is unique, so the sorting algorithm does not matter *)
+Fixpoint py_insert_str (x : string) (l : list string) : list string :=
+  match l with
+  | [] => [x]
+  | y :: t => if String.leb x y then x :: l else y :: py_insert_str x t
+  end.
+Definition py_sorted_str (l : list string) : list string := fold_right py_insert_str [] l.
